@@ -5,5 +5,5 @@ CONSTANTS
   Coords <- MCCoords
   RectSeqs <- MCRectSeqs
 INVARIANTS TypeOK WindowAgreement InputGated BitmapsInWindow AdvanceOnlyOnExpected IdsEcho
-PROPERTIES OneFinalisePerDA
+PROPERTIES OneFinalisePerDA BitmapsStartInWindow
 CHECK_DEADLOCK FALSE
